@@ -3249,3 +3249,129 @@ func lockQueryEncoded(c *Ctx, rule string) {
 	}
 	c.AtLeast(rule, "query strings set on request URLs", n, 1)
 }
+
+// lineEndingFallsBack (C19): a .gitattributes without any newline reports an empty line ending. track then
+// writes with Git's default ending; the result of getAttributeLineEnding is tested for emptiness in trackCommand
+// and replaced by gitLineEnding's result — otherwise old and new line are glued into one, which Git rejects.
+func lineEndingFallsBack(c *Ctx, rule string) {
+	p := c.P
+	fn := p.Fn("commands", "trackCommand")
+	if fn == nil {
+		c.Missing(rule, "commands.trackCommand", "not found")
+		return
+	}
+	n := 0
+	for _, ci := range CallsIn(fn, "commands.getAttributeLineEnding") {
+		g, ok := ci.(*ssa.Call)
+		if !ok {
+			continue
+		}
+		n++
+		tested, merged := false, false
+		for _, b := range fn.Blocks {
+			for _, in := range b.Instrs {
+				switch x := in.(type) {
+				case *ssa.BinOp:
+					if x.Op != token.EQL && x.Op != token.NEQ && x.Op != token.GTR && x.Op != token.LSS {
+						continue
+					}
+					for _, o := range []ssa.Value{x.X, x.Y} {
+						if o == ssa.Value(g) {
+							if s, isC := ConstString(x.X); isC && s == "" {
+								tested = true
+							}
+							if s, isC := ConstString(x.Y); isC && s == "" {
+								tested = true
+							}
+						}
+						if lc, ok := o.(*ssa.Call); ok {
+							if bi, isB := lc.Call.Value.(*ssa.Builtin); isB && bi.Name() == "len" && lc.Call.Args[0] == ssa.Value(g) {
+								tested = true
+							}
+						}
+					}
+				case *ssa.Phi:
+					hasG, hasDefault := false, false
+					for _, e := range x.Edges {
+						if e == ssa.Value(g) {
+							hasG = true
+						}
+						if cc, _, ok := CallResult(e); ok && CalleeName(cc.Common()) == "commands.gitLineEnding" {
+							hasDefault = true
+						}
+					}
+					if hasG && hasDefault {
+						merged = true
+					}
+				}
+			}
+		}
+		c.Check(tested && merged, rule, "track:empty-line-ending-falls-back", p.InstrPos(g), "an empty line ending reported for .gitattributes is replaced by Git's default ending",
+			"trackCommand uses the line ending reported for the existing .gitattributes without falling back when it is empty (a file without a trailing newline): the new line is glued to the last existing one and Git ignores both patterns")
+	}
+	c.AtLeast(rule, "line-ending lookups in trackCommand", n, 1)
+}
+
+// hookUpgradeablesPerType (C20): which existing hook bodies count as "written by git-lfs, may be replaced or
+// removed" is decided per hook type. The early, unguarded bodies were only ever written for pre-push; for
+// post-checkout, post-commit and post-merge the list holds the three templated old bodies and nothing else.
+func hookUpgradeablesPerType(c *Ctx, rule string) {
+	p := c.P
+	fn := p.Fn("lfs", "LoadHooks")
+	if fn == nil {
+		c.Missing(rule, "lfs.LoadHooks", "not found")
+		return
+	}
+	n := 0
+	for _, ci := range CallsIn(fn, "lfs.NewStandardHook") {
+		a := CallArgs(ci.Common())
+		n++
+		typ, isC := ConstString(a[0])
+		if !isC {
+			c.Bad(rule, "hook-upgradeables:"+itoa(n), p.InstrPos(ci), "hooks of different types are built with one shared list of replaceable bodies: bodies git-lfs only ever wrote as pre-push hooks now make a user's post-checkout/post-commit/post-merge hook count as generated, and install overwrites (uninstall deletes) it")
+			continue
+		}
+		if typ == "pre-push" {
+			c.OK(rule, "hook-upgradeables:"+typ, p.InstrPos(ci), "pre-push: historical bodies listed")
+			continue
+		}
+		vecs, ok := ArgVectors(a[2])
+		good := ok && len(vecs) > 0
+		for _, vec := range vecs {
+			for _, e := range vec {
+				u, isLoad := e.V.(*ssa.UnOp)
+				if e.Spread || !isLoad {
+					good = false
+					continue
+				}
+				g, isG := u.X.(*ssa.Global)
+				if !isG || !strings.HasPrefix(g.Name(), "hookOldContent") {
+					good = false
+				}
+			}
+		}
+		c.Check(good, rule, "hook-upgradeables:"+typ, p.InstrPos(ci), "only the templated old bodies are replaceable for this hook type",
+			"the list of replaceable bodies of the "+typ+" hook contains bodies git-lfs never wrote for that hook type: a user's hook with that content is overwritten without --force and deleted by uninstall")
+	}
+	c.AtLeast(rule, "standard hooks built in LoadHooks", n, 4)
+}
+
+// configSectionsRemovedOnlyByAttribute (C20): which scope of Git's configuration install and uninstall touch
+// is decided in one place, lfs.Attribute (from the options the user gave). Nothing else removes a whole section
+// of Git's configuration — in particular not the command functions, for a scope the user did not name.
+func configSectionsRemovedOnlyByAttribute(c *Ctx, rule string) {
+	p := c.P
+	n := 0
+	for _, fn := range p.RepoFuncs(productPkg) {
+		for _, ci := range CallsIn(fn, "(*git.Configuration).UnsetLocalSection", "(*git.Configuration).UnsetGlobalSection", "(*git.Configuration).UnsetSystemSection",
+			"(*git.Configuration).UnsetWorktreeSection", "(*git.Configuration).UnsetFileSection",
+			"(*config.Configuration).UnsetGitLocalSection", "(*config.Configuration).UnsetGitGlobalSection", "(*config.Configuration).UnsetGitSystemSection", "(*config.Configuration).UnsetGitWorktreeSection") {
+			n++
+			name := FnName(fn)
+			okSite := strings.HasPrefix(name, "(*lfs.Attribute).") || strings.HasPrefix(name, "(*config.Configuration).UnsetGit") || strings.HasPrefix(name, "(*git.Configuration).")
+			c.Check(okSite, rule, "section-removal-site:"+name, p.InstrPos(ci), "sections are removed by lfs.Attribute (and the thin wrappers it goes through)",
+				name+" removes a section of Git's configuration itself: uninstall (or install) then changes a scope the user did not ask for, e.g. the repository's own filter.lfs.* settings on a global uninstall")
+		}
+	}
+	c.AtLeast(rule, "section removals", n, 5)
+}
